@@ -138,7 +138,7 @@ class Gen:
         seed = self.r.randrange(1 << 20)
         self.emit("fill %d seed %d" % (aid, seed))
         self.allocs[aid] = dict(seed=seed, fixed=kind, vid=vid, mode="fixed")
-        self.views[vid] = dict(dims={4: [4], 23: [2, 3], 33: [3, 3]}[kind], alloc=aid, how="whole")
+        self.views[vid] = dict(dims={4: [4], 23: [2, 3], 33: [3, 3], 234: [2, 3, 4]}[kind], alloc=aid, how="whole")
         return vid
 
     def new_view(self, src, specs, how, post=None):
@@ -589,7 +589,7 @@ class Gen:
         elif x < 0.87:
             fixed = [a for a, d in self.allocs.items() if d["fixed"]]
             if not fixed:
-                aid_vid = self.new_fixed(r.choice([4, 23, 33]))
+                aid_vid = self.new_fixed(r.choice([4, 23, 33, 234, 234]))
                 fixed = [self.views[aid_vid]["alloc"]]
             aid = r.choice(fixed)
             lv = self.allocs[aid]["vid"]
